@@ -210,9 +210,12 @@ static int run_tests(TestReporter *reporter,
             fprintf(stderr, "ERROR: No such test: '%s' in '%s'\n", symbolic_name, suite_name);
             return EXIT_FAILURE;
         }
-        char *test_name = test_name_of(symbolic_name);
+        /* the pattern may contain wildcards: run the test it selected, by its own name */
+        const char *test_name = NULL;
+        for (int i = 0; i < cgreen_vector_size(tests); i++)
+            if (test_matches_pattern(symbolic_name, get_item_from(tests, i)))
+                test_name = get_item_from(tests, i)->test_name;
         status = run_single_test(suite, test_name, reporter);
-        free(test_name);
     } else {
         if (verbose) {
             if (number_of_matches != count(tests))
